@@ -74,8 +74,10 @@ async def inject(cmd: Any, point: str, where: str = "pre") -> None:
         fd = os.open(sp["sync"], os.O_WRONLY)
         os.write(fd, b"ready\n")
         os.close(fd)
-        await asyncio.sleep(90)
-        os._exit(SIGINT_NEVER_ARRIVED)
+        # The SIGINT normally ends this wait.  Code that shields the phase from the interrupt lets it run to
+        # its end: then the phase simply completes and the run is judged on what it leaves behind.
+        await asyncio.sleep(3)
+        return
 
 
 class ScriptCfg(AsyncScriptConfig):
